@@ -2,6 +2,7 @@ package symex
 
 import (
 	"fmt"
+	"sync"
 	"go/types"
 	"io"
 	"math"
@@ -20,14 +21,17 @@ type intrinsicFn func(c *Ctx, fn *ssa.Function, args []Value) Value
 const zzPath = "github.com/advancedclimatesystems/gonnx/internal/zzverif"
 
 var sharedTab map[string]intrinsicFn
+var tabOnce sync.Once
+var typeMu sync.Mutex
 
 func (c *Ctx) intrinsic(fn *ssa.Function, name string) (intrinsicFn, bool) {
-	if sharedTab == nil {
-		sharedTab = map[string]intrinsicFn{}
-		c.registerStd(sharedTab)
-		c.registerZZ(sharedTab)
-		c.registerTensorIntrinsics(sharedTab)
-	}
+	tabOnce.Do(func() {
+		t := map[string]intrinsicFn{}
+		c.registerStd(t)
+		c.registerZZ(t)
+		c.registerTensorIntrinsics(t)
+		sharedTab = t
+	})
 	if h, ok := sharedTab[name]; ok {
 		return h, true
 	}
@@ -60,6 +64,8 @@ var typeCache = map[string]types.Type{}
 
 func (c *Ctx) cachedPtrType(pkg, name string) types.Type {
 	k := pkg + "." + name
+	typeMu.Lock()
+	defer typeMu.Unlock()
 	if t, ok := typeCache[k]; ok {
 		return t
 	}
@@ -181,7 +187,46 @@ func (c *Ctx) registerStd(tab map[string]intrinsicFn) {
 		c.E.Stubs["fmt.Sprint*"]++
 		return "<fmt>"
 	}
-	tab["fmt.Sprintf"] = sprint
+	tab["fmt.Sprintf"] = func(c *Ctx, fn *ssa.Function, a []Value) Value {
+		// concrete arguments are formatted for real (harnesses build names this way)
+		f, ok := a[0].(string)
+		if ok {
+			var args []interface{}
+			good := true
+			for _, x := range c.valuesOf(a[1]) {
+				iv, isI := x.(IfaceV)
+				if !isI || iv.T == nil {
+					good = false
+					break
+				}
+				switch y := iv.V.(type) {
+				case string:
+					args = append(args, y)
+				case *smt.Term:
+					if !y.IsConst() {
+						good = false
+					} else if y.Sort.K == smt.KBV {
+						if isSigned(iv.T) {
+							args = append(args, y.SVal())
+						} else {
+							args = append(args, y.U)
+						}
+					} else if y.Sort.K == smt.KBool {
+						args = append(args, y.BoolVal())
+					} else {
+						good = false
+					}
+				default:
+					good = false
+				}
+			}
+			if good {
+				return fmt.Sprintf(f, args...)
+			}
+		}
+		c.E.Stubs["fmt.Sprint*"]++
+		return "<fmt>"
+	}
 	tab["fmt.Sprint"] = sprint
 	tab["fmt.Sprintln"] = sprint
 	tab["fmt.Println"] = func(c *Ctx, fn *ssa.Function, a []Value) Value {
@@ -707,6 +752,14 @@ func (c *Ctx) registerZZ(tab map[string]intrinsicFn) {
 		}
 		c.assertCond(label, cond, "")
 		return nil
+	}
+	tab[M+"ShapeTensor"] = func(c *Ctx, fn *ssa.Function, a []Value) Value {
+		dims := a[2].(SliceV)
+		s := &Shadow{abs: true, dt: tensor.Float32, name: c.str(a[1])}
+		for k := 0; k < dims.Len; k++ {
+			s.absShape = append(s.absShape, dims.B.Load(c, dims.Off+k).(*smt.Term))
+		}
+		return c.tensorVal(s)
 	}
 	tab[M+"Protect"] = func(c *Ctx, fn *ssa.Function, a []Value) Value {
 		if s := c.asShadow(a[2]); s != nil {
